@@ -873,6 +873,9 @@ int32_t pstm_lshd(pstm_int *a, uint16_t b)
             *top++ = 0;
         }
     }
+    /* shifting zero left gives zero: without this a->used would count b zero
+       digits (not clamped), which pstm_iszero and pstm_cmp do not expect */
+    pstm_clamp(a);
     return PSTM_OKAY;
 }
 
